@@ -194,6 +194,67 @@ CHECKS["C10"] = (
     "although all its host structs are representable is a violation too.",
     "f64 and non-square matrices are outside (encase/glam have no equivalent).",
     "DESIGN.md §8 C10")
+CHECKS["C07"] = (
+    "exploration",
+    "runtime monitoring: VERTEX_ATTRIBUTES / vertex_buffer_layout / <entry>_entry values "
+    "evaluated in the compiled module vs spec + offset_of!/size_of taken by the probe; "
+    "transcribed wgpu vertex-buffer rules; real wgpu-core check_stage with those attributes; "
+    "create_render_pipeline replay on the real device",
+    "Entry family x 4 option sets (representations x bytemuck/encase switches): one attribute "
+    "per @location member with the spec's location/format and the Rust field's offset, none for "
+    "builtins; stride = size_of; one buffer per struct parameter in parameter order, each "
+    "parameter's step mode checked by passing Instance at one position at a time; wgpu's "
+    "stride/offset/location rules; vertex-stage check_stage with the attributes as inputs.",
+    "64-bit formats assumed supported on the model device; nalgebra stand-in.",
+    "DESIGN.md §8 C07")
+CHECKS["C12"] = (
+    "exploration",
+    "runtime monitoring: HashMaps returned by OverrideConstants::constants() and carried by the "
+    "entry helpers for many assignments, vs expected key/value sets and naga's own "
+    "process_overrides on the recorded maps",
+    "Shaders with 1-5 overrides (bool/i32/u32/f32 x default x @id, dependent defaults), 8 "
+    "assignments each (extremes, None/Some): the struct literal in the probe fixes field names, "
+    "types and optionality; the map must hold exactly the required + set optional overrides "
+    "keyed by decimal @id or name with the numeric value; naga's override resolution must accept "
+    "it and see the supplied values; entry helpers must carry the same map. Thorough: real "
+    "create_compute_pipeline.",
+    "f32 values compare after rounding to f32.",
+    "DESIGN.md §8 C12")
+CHECKS["C14"] = (
+    "exploration",
+    "runtime monitoring: ENTRY_* / *_WORKGROUP_SIZE values, ComputePipelineDescriptor recorded by "
+    "the shadow device with object ids, values returned by entry helpers and state builders "
+    "(pointer identity) vs the spec",
+    "Entry family x 4 option sets: exact names incl. non-ASCII/mixed case; compute constructors "
+    "target their entry with a module created from this module's SOURCE and its own pipeline "
+    "layout; workgroup sizes from literals/constants with missing dims 1; fragment target count "
+    "= 1 + highest written location (type-level: array length); vertex buffer count = struct "
+    "parameters incl. builtin-only structs; vertex_state/fragment_state forward by identity.",
+    "override-dependent workgroup sizes are outside the statement.",
+    "DESIGN.md §8 C14")
+CHECKS["C15"] = (
+    "exploration",
+    "runtime monitoring: type_name and bit pattern of every exported constant evaluated in the "
+    "compiled module vs the value the workload generator wrote (cross-checked with naga's "
+    "constant evaluation); inventory of pub const items",
+    "2-9 constants per shader over all scalar types, explicit/inferred types, suffixes, "
+    "zero-value constructors, references, expressions, negation, -0.0 (also as a product), "
+    "extreme/subnormal floats by bit pattern, non-scalar constants that must be skipped; x "
+    "embedded/include x formatter on/off.",
+    "negative f64 constants are not expressible in naga 24 and not generated.",
+    "DESIGN.md §8 C15")
+CHECKS["C16"] = (
+    "exploration",
+    "runtime monitoring: SOURCE evaluated in the compiled module and the ShaderModuleDescriptor "
+    "recorded by the shadow device vs the original bytes; include_str! literal value and "
+    "canonical form without SOURCE for the include variant",
+    "Const + bind family texts with quotes, backslashes, braces, raw-string look-alikes, CR/LF/"
+    "CRLF, control characters, DEL, non-ASCII, non-BMP in comments and identifiers; 12 hostile "
+    "include paths (files put in place so the module compiles); formatter on/off: SOURCE and the "
+    "string handed to the device must be byte-identical to the input; the include variant must "
+    "be include_str! of exactly the given path and otherwise canonically equal.",
+    "a run is inconclusive if one of the required character classes was never generated.",
+    "DESIGN.md §8 C16")
 
 NOT_YET = {
 }
